@@ -5,6 +5,62 @@ import pickle
 import numpy as np
 
 
+def _lineage_behaviour():
+    """lineage models with every kind of lineage part (volume / death / division rules and events, with distinct rate constants), copied
+    before and after initialisation; original and copy are then simulated from the same seed and must report the same event counts"""
+    import warnings
+    from bioscrape.lineage import LineageModel, LineageVolumeSplitter, py_SimulateSingleCell
+    from bioscrape.random import py_seed_random
+    out = []
+
+    def build(kv, kd, kdiv, rules):
+        M = LineageModel(species=["X", "Y"], reactions=[([], ["X"], "massaction", {"k": 5.0}), (["X"], ["Y"], "massaction", {"k": 0.5})],
+                         initial_condition_dict={"X": 10, "Y": 2})
+        if kv is not None:
+            M.create_volume_event("linear volume", {"growth_rate": 0.05}, "massaction", {"k": kv, "species": ""})
+        if kd is not None:
+            M.create_death_event("death", {}, "massaction", {"k": kd, "species": ""})
+        if kdiv is not None:
+            M.create_division_event("division", {}, "massaction", {"k": kdiv, "species": ""}, LineageVolumeSplitter(M))
+        if rules:
+            M.create_volume_rule("linear", {"growth_rate": 0.3})
+            M.create_death_rule("species", {"specie": "Y", "threshold": 40, "comp": ">"})
+            M.create_division_rule("deltaV", {"threshold": 1.5}, LineageVolumeSplitter(M))
+        return M
+
+    def run(M):
+        py_seed_random(77)
+        np.random.seed(77)
+        r = py_SimulateSingleCell(np.arange(0, 6, 0.05), Model=M, return_dataframes=False)
+        return (np.array(r.py_get_timepoints()), np.array(r.py_get_result()), np.array(r.py_get_volume()), r.py_get_dead(), r.py_get_divided())
+    with warnings.catch_warnings():
+        warnings.simplefilter("ignore")
+        for cfg in ((40.0, 0.0, None, False), (0.0, 3.0, None, False), (None, 0.0, None, False), (5.0, 0.05, 0.4, False), (2.0, 0.1, 0.3, True), (None, None, None, True)):
+            for name, f in (("pickle", lambda m: pickle.loads(pickle.dumps(m))), ("deepcopy", copy.deepcopy)):
+                for when in ("before initialisation", "after initialisation", "after initialisation, then initialised again"):
+                    try:
+                        M = build(*cfg)
+                        if when != "before initialisation":
+                            M.py_initialize()
+                        M2 = f(M)
+                        if when.endswith("again"):
+                            M.py_initialize()
+                            M2.py_initialize()
+                        a, b = run(M), run(M2)
+                        ca, cb = M.py_get_event_counts(), M2.py_get_event_counts()
+                    except Exception as e:
+                        out.append("lineage model %s, %s %s: %s: %s" % (cfg, name, when, type(e).__name__, str(e)[:120]))
+                        continue
+                    if ca != cb:
+                        out.append("lineage model (volume event k, death event k, division event k, rules)=%s, %s %s: (division, volume, death) event counts %s, copy %s" % (cfg, name, when, ca, cb))
+                    elif any(x.shape != y.shape or not np.allclose(x, y) for x, y in zip(a[:3], b[:3])) or a[3:] != b[3:]:
+                        out.append("lineage model %s, %s %s: the same seed gives another single-cell trajectory for the copy (ends t=%s dead=%s divided=%s / t=%s dead=%s divided=%s)"
+                                   % (cfg, name, when, a[0][-1], a[3], a[4], b[0][-1], b[3], b[4]))
+                    if out:
+                        return out
+    return out
+
+
 def replay(spec):
     import warnings
     warnings.simplefilter("ignore")
@@ -89,6 +145,10 @@ def replay(spec):
         M.py_initialize()
     else:
         M = Cls(**args)
+    if which == "lineage":
+        problems += _lineage_behaviour()
+        if problems:
+            return {"reproduced": True, "observed": problems[:3], "expected": "copy behaves like the original"}
     tp = np.arange(0, 3, 0.5)
     for name, f in (("pickle", lambda m: pickle.loads(pickle.dumps(m))), ("deepcopy", copy.deepcopy)):
         try:
